@@ -32,7 +32,7 @@ def meta(tier, seed):
                   "positive multiples of a query give identical expectations and a stored row is in its own neighbourhood",
         "bounds": {"settings": SETTINGS, "seeds": 3 if tier == "thorough" else 1,
                    "stored": {"quick": "d=1 n<=4; d=2 n<=3 (n=3: 3 assignments); d=3 n<=2",
-                              "thorough": "d=1 n<=5; d=2 n<=3 all assignments, n=4 (3 assignments); d=3 n<=2"}[tier],
+                              "thorough": "d=1 n<=5; d=2 n<=3 with all arm assignments; d=3 n<=2; three seeds"}[tier],
                    "grid": "{-1,0,1}^d incl. the zero vector", "n_jobs": [1, 2], "policies": LPS},
         "assumptions": ["a projection whose exact value is non-zero but below 1e-12*|x||p| is a don't-care (skipped, counted)",
                         "n_jobs=2 runs through the joblib model (isolated hashing tasks, shared-memory inserts)"],
@@ -42,7 +42,7 @@ def meta(tier, seed):
 def shards(tier, seed):
     out = []
     seeds = [seed * 7 + 3] + ([seed * 7 + 4, seed * 7 + 5] if tier == "thorough" else [])
-    plan = {"quick": [(1, 4), (2, 3), (3, 2)], "thorough": [(1, 5), (2, 4), (3, 2)]}[tier]
+    plan = {"quick": [(1, 4), (2, 3), (3, 2)], "thorough": [(1, 5), (2, 3), (3, 2)]}[tier]
     for (nd, nt) in SETTINGS:
         for sd in seeds:
             for d, nmax in plan:
